@@ -11,7 +11,7 @@ use crate::traffic::{self, CoverageMonitor, Plan};
 pub static INFO: PropInfo = PropInfo {
     id: "C03",
     level: "exploration",
-    rule: "one evaluation = one simulated session (1-3 connections on one server) with traffic on all three channel kinds in both directions, boundary-weighted message lengths (0, 1, 1189..1201, 2399..2401, k*1200-1/0/+1, up to 300 KB), several messages of several channels per tick so slices interleave, seeded loss / duplication / delay / reordering per datagram. Oracle: every obtained message must be byte-identical to a submission on the same (connection, direction, channel) (self-describing keyed payloads); for Unreliable channels the harness attributes each message to the packets that carried it (crate decoder) and the number of times it is obtained must not exceed the minimum number of delivered copies over those packets. Non-trivial = faults occurred AND at least one sliced message was obtained; distinct = distinct event-log fingerprints.",
+    rule: "one evaluation = one simulated session (1-3 connections on one server) with traffic on all three channel kinds in both directions, boundary-weighted message lengths (0, 1, 1189..1201, 2399..2401, k*1200-1/0/+1, up to 300 KB), several messages of several channels per tick so slices interleave, seeded loss / duplication / delay / reordering per datagram. Oracle: every obtained message must be byte-identical to a submission on the same (connection, direction, channel) (self-describing keyed payloads); for Unreliable channels the harness attributes each message to the packets that carried it (crate decoder) and the number of times it is obtained must not exceed the minimum number of delivered copies over those packets. Non-trivial = faults occurred AND at least one sliced message was obtained; distinct = distinct event-log fingerprints. In addition one LONG BURST per check (per shard in the thorough tier): more than 2^16 two-slice unreliable messages on one channel within ~130 ms of connection time, sliced ids starting at 0 or just below 2^16 / 2^32 / 2^48, a few of the first 200 left incomplete; every obtained message must be exactly one submitted message, once, and none of the incomplete ones.",
     assumptions: &[
         "messages shorter than 24 bytes carry no header and are matched by content within their channel",
         "ChaCha/transport layers are not involved here (see C20 for the full stack)",
@@ -30,6 +30,7 @@ pub static INFO: PropInfo = PropInfo {
         ("unreliable_delivered_twice_legitimately", 1),
         ("wire_packed_reliable", 1),
         ("wire_packed_unreliable", 1),
+        ("long_burst_messages_obtained", 60_000),
     ],
     engines_quick: &["e1"],
     engines_thorough: &["e1"],
@@ -37,7 +38,118 @@ pub static INFO: PropInfo = PropInfo {
 };
 
 pub fn run(ctx: &Ctx, out: &mut Outcome) {
+    if ctx.replay_seed.is_none() && (ctx.shard == 0 || ctx.thorough()) {
+        long_burst(ctx, out);
+    }
     super::run_loop(ctx, out, 4000, 400_000, 3, one_run);
+}
+
+/// More than 2^16 sliced unreliable messages on one channel within well under 3 s of connection time, a handful of
+/// them left incomplete (one slice dropped): fragments are keyed by message id on the receiver, so any narrowing or
+/// reuse of that id (on the wire or in the tables) stitches a late message into a stale fragment. Every obtained
+/// message must be exactly one submitted message, at most once, and none of the incomplete ones.
+fn long_burst(ctx: &Ctx, out: &mut Outcome) {
+    use crate::payload;
+    use crate::rsim::{decode, ChanSpec};
+    use bytes::Bytes;
+    use renet::verif::Packet;
+    use renet::{ConnectionConfig, RenetClient, RenetServer};
+    use std::collections::HashSet;
+    use std::time::Duration;
+    let seed = ctx.shard_seed(0xB0057);
+    let mut r = Rng::new(seed);
+    let chans = vec![ChanSpec { id: 0, kind: Kind::Unreliable, resend_ms: 0, max_mem: 256 << 20 }];
+    let cc = ConnectionConfig {
+        available_bytes_per_tick: 4_000_000_000,
+        server_channels_config: chans.iter().map(|c| c.to_config()).collect(),
+        client_channels_config: chans.iter().map(|c| c.to_config()).collect(),
+    };
+    let mut server = RenetServer::new(cc.clone());
+    let id = 31;
+    server.add_connection(id);
+    let mut client = RenetClient::new(cc);
+    client.set_connected();
+    // the id counter starts below another width boundary in half of the bursts
+    let start_id = if r.chance(1, 2) { 0 } else { *r.pick(&[(1u64 << 32) - 700, (1 << 16) - 3, (1 << 48) - 9]) };
+    if let Some(c) = server.verif_connection_mut(id) {
+        c.verif_seed_unreliable_sliced_id(start_id);
+    }
+    let total: u64 = 65_536 + r.range(2, 300);
+    let per_tick = 512u64;
+    // incomplete ones: the first, and a few more in the first 200
+    let mut incomplete: HashSet<u64> = HashSet::new();
+    incomplete.insert(0);
+    for _ in 0..r.range(1, 5) {
+        incomplete.insert(r.below(200));
+    }
+    let tag = r.next_u64();
+    let dt = Duration::from_millis(1);
+    let mut obtained: HashSet<u64> = HashSet::new();
+    let mut sent = 0u64;
+    let mut ticks = 0u64;
+    let mut slice_packets = 0u64;
+    let mut bad: Option<String> = None;
+    while (sent < total || ticks < total / per_tick + 3) && bad.is_none() {
+        ticks += 1;
+        server.update(dt);
+        client.update(dt);
+        let mut n = 0;
+        while sent < total && n < per_tick {
+            let len = 1201 + (sent % 5) as usize;
+            server.send_message(id, 0, Bytes::from(payload::make(3, 1, 0, 0, sent, len, tag)));
+            sent += 1;
+            n += 1;
+        }
+        for p in server.get_packets_to_send(id).unwrap_or_default() {
+            // which message a slice packet belongs to is known from its position in the stream (two slice packets per
+            // message, in submission order), not from the id it carries
+            if let Some(Packet::UnreliableSlice { .. }) = decode(&p) {
+                let (i, slice_index) = (slice_packets / 2, slice_packets % 2);
+                slice_packets += 1;
+                if slice_index == 1 && incomplete.contains(&i) {
+                    continue; // lost
+                }
+            }
+            client.process_packet(&p);
+        }
+        for p in client.get_packets_to_send() {
+            let _ = server.process_packet_from(&p, id);
+        }
+        while let Some(m) = client.receive_message(0) {
+            out.count("long_burst_messages_obtained");
+            let ok = payload::self_consistent(&m);
+            let idx = payload::parse(&m).map(|h| h.idx);
+            if !ok {
+                bad = Some(format!("obtained a {}-byte message that is not any submitted message (header index {:?}): stitched from fragments of different messages or corrupted", m.len(), idx));
+                break;
+            }
+            let idx = idx.unwrap();
+            if incomplete.contains(&idx) {
+                bad = Some(format!("obtained message #{} although one of its slices was never delivered", idx));
+                break;
+            }
+            if !obtained.insert(idx) {
+                bad = Some(format!("obtained message #{} twice on a network that duplicated nothing", idx));
+                break;
+            }
+        }
+        if client.is_disconnected() || !server.is_connected(id) {
+            bad = Some(format!("an endpoint disconnected during the burst: client {:?}", client.disconnect_reason()));
+        }
+    }
+    out.count("long_burst_runs");
+    out.eval(crate::rng::mix(&[0xB0057, seed]), true);
+    if let Some(d) = bad {
+        out.violation(
+            ctx,
+            "C03/integrity/long-burst",
+            "every obtained message is byte-identical to a message the peer submitted on that channel; a lost slice makes the whole message disappear rather than yield a partial or stitched one",
+            format!("burst of {} two-slice unreliable messages in {} ms of connection time (sliced ids from {:#x}), {} left incomplete: {}", total, ticks, start_id, incomplete.len(), d),
+            serde_json::json!({"property": "C03", "engine": ctx.engine, "mode": "long-burst", "seed": seed, "start_id": format!("{:#x}", start_id), "messages": total}),
+        );
+    } else if obtained.len() as u64 + incomplete.len() as u64 != total {
+        out.note(&format!("long burst: {} of {} complete messages obtained", obtained.len(), total - incomplete.len() as u64));
+    }
 }
 
 pub fn one_run(ctx: &Ctx, out: &mut Outcome, run_seed: u64) {
